@@ -4,6 +4,7 @@ import (
 	"errors"
 	"fmt"
 	"io"
+	"math"
 	"os"
 	"strings"
 
@@ -65,7 +66,7 @@ func init() {
 		Word32: true,
 		Level:  "model_checking",
 		Rule: "E2+E3: for every section (base in {0,5,2^40}, n in 0..4, thorough 0..7) a breadth-first search over the cursor states reachable inside the window [0, n+6] (observed through Seek(0, SeekCurrent)); from EVERY state EVERY operation of the alphabet {Write(len 0..6), WriteAt(len 0..6, off in [-1,n+1]) - the buffer of length 0 in each of 4 forms: nil, non-nil, with spare capacity, empty tail of a longer array -, Seek(offset in [-7,n+2], whence in {-1,0,1,2,3})} × EVERY answer of the scripted underlying WriterAt {everything; k<len bytes with an error; k<len bytes without an error, k in {0,1,2}} is executed on a real SectionWriter positioned there by real calls. " +
-			"Independently every operation sequence of depth ≤3 (thorough ≤4) over a reduced alphabet runs on one object without any state merging (guards against hidden state) - alone and once more with a second SectionWriter over another underlying writer used between the steps (objects must not share state), once more WITHOUT reading the cursor back between the steps (observing it must not be what keeps the writer correct), once more over a SectionWriter stacked on the scripted writer and (fault-free sequences of ≤2 operations) over an *os.File whose content is read back -, and AtToWriter(w, off in {0,5}) runs every sequence of ≤3 Writes × answers. Over a SHORT real SectionWriter (3 bytes at offset 2) as the underlying writer: every section with start in [-2,4] and length 0..5 relative to it (starting before it, ending beyond it, outside it) × every sequence of ≤2 (thorough ≤3) operations of the reduced alphabet; the inner section is modelled by the same statement one level down. Big geometry: sections of length n in {0, 4, 2^31-1, 2^31, 2^31+1, 2^32, 2^32+3, 2^62} × base in {0,5,2^40} from every cursor in {0, 2^31-2, 2^32-2, n-3..n+2}: every Write(len 0..4) / WriteAt(len 0..4, off around n and around 2^31, 2^32) × answer, every Seek(off in [-3,3] ∪ {±n, n±1, 2^31, 2^32, 2^32+1} ∪ {the last positions of int64: MaxInt64-d relative to start / end / cursor, d in {0,1,4,5,6}}), each alone and followed blind by a Write or a relative Seek (a Seek whose target is a valid int64 relative to the section but whose absolute offset base+pos is not representable may be accepted or rejected - the statement leaves it open - and everything after it must follow the answer given). Long buffers: n in {2^16-1, 2^16, 2^16+1} × Write / WriteAt of 2^16-1, 2^16, 2^16+1, 2^17 bytes from cursors {0, 1, n-2^16, n-1, n} × answers {everything; k in {0, 1, 2^16-1, len-1} with / without an error} followed by a 1-byte Write. Oracle: the statement's cursor model — compared are return values (count, error class: nil / ErrShortWrite / the underlying error / some error for rejected Seeks), the exact list of non-empty (offset, bytes) calls the underlying writer received, containment in [base, base+n), the cursor afterwards and Size(). Non-trivial: transitions in which bytes reach the underlying writer or the cursor moves.",
+			"Independently every operation sequence of depth ≤3 (thorough ≤4) over a reduced alphabet runs on one object without any state merging (guards against hidden state) - alone and once more with a second SectionWriter over another underlying writer used between the steps (objects must not share state), once more WITHOUT reading the cursor back between the steps (observing it must not be what keeps the writer correct), once more over a SectionWriter stacked on the scripted writer and (fault-free sequences of ≤2 operations) over an *os.File whose content is read back -, and AtToWriter(w, off in {0,5}) runs every sequence of ≤3 operations over {Write(len 0,1,3) × answers, WriteAt(len 2, off in {-1,0,3}) × 3 answers, Seek (8 offset/whence pairs relative to the start and the cursor, one invalid whence)} - WriteAt and Seek reached by asserting io.WriterAt / io.Seeker on the returned io.Writer - with the cursor read back at the end. Over a SHORT real SectionWriter (3 bytes at offset 2) as the underlying writer: every section with start in [-2,4] and length 0..5 relative to it (starting before it, ending beyond it, outside it) × every sequence of ≤2 (thorough ≤3) operations of the reduced alphabet; the inner section is modelled by the same statement one level down. Big geometry: sections of length n in {0, 4, 2^31-1, 2^31, 2^31+1, 2^32, 2^32+3, 2^62} × base in {0,5,2^40} from every cursor in {0, 2^31-2, 2^32-2, n-3..n+2}: every Write(len 0..4) / WriteAt(len 0..4, off around n and around 2^31, 2^32) × answer, every Seek(off in [-3,3] ∪ {±n, n±1, 2^31, 2^32, 2^32+1} ∪ {the last positions of int64: MaxInt64-d relative to start / end / cursor, d in {0,1,4,5,6}}), each alone and followed blind by a Write or a relative Seek (a Seek whose target is a valid int64 relative to the section but whose absolute offset base+pos is not representable may be accepted or rejected - the statement leaves it open - and everything after it must follow the answer given). Long buffers: n in {2^16-1, 2^16, 2^16+1} × Write / WriteAt of 2^16-1, 2^16, 2^16+1, 2^17 bytes from cursors {0, 1, n-2^16, n-1, n} × answers {everything; k in {0, 1, 2^16-1, len-1} with / without an error} followed by a 1-byte Write. Oracle: the statement's cursor model — compared are return values (count, error class: nil / ErrShortWrite / the underlying error / some error for rejected Seeks), the exact list of non-empty (offset, bytes) calls the underlying writer received, containment in [base, base+n), the cursor afterwards and Size(). Non-trivial: transitions in which bytes reach the underlying writer or the cursor moves.",
 		Assumptions: []string{
 			"cursors beyond the window n+6 are executed once (as successors) but not expanded",
 			"zero-length writes: whether the underlying writer is called at all is not fixed by the statement, so empty calls are ignored in the comparison and only the benign answer is scripted for them",
@@ -325,12 +326,18 @@ func c18Exec(cs c18Case) (got, want string, moved bool) {
 			os.Remove(f.Name())
 		}()
 	}
+	// the section's other faces: for AtToWriter, whose result is an io.Writer, they are reached the way a
+	// caller reaches them - by asserting the interfaces
+	var wa io.WriterAt
+	var sk io.Seeker
 	if cs.Kind == "attowriter" {
 		w = iohelper.AtToWriter(under, cs.Base)
-		m.n = 1 << 40 // no practical end
+		m.n = math.MaxInt64 - cs.Base // no practical end
+		wa, _ = w.(io.WriterAt)
+		sk, _ = w.(io.Seeker)
 	} else {
 		sw = iohelper.NewSectionWriter(under, cs.Base, cs.N)
-		w = sw
+		w, wa, sk = sw, sw, sw
 		if cs.Cursor != 0 {
 			pos, err := sw.Seek(cs.Cursor, io.SeekStart)
 			m.cur = cs.Cursor
@@ -359,10 +366,18 @@ func c18Exec(cs c18Case) (got, want string, moved bool) {
 			n, err := w.Write(op.buf(i))
 			gv = fmt.Sprintf("%d,%s", n, errClass(err))
 		case "writeat":
-			n, err := sw.WriteAt(op.buf(i), op.Off)
+			if wa == nil {
+				gv = "the writer is no io.WriterAt"
+				break
+			}
+			n, err := wa.WriteAt(op.buf(i), op.Off)
 			gv = fmt.Sprintf("%d,%s", n, errClass(err))
 		case "seek":
-			pos, err := sw.Seek(op.Off, op.Whence)
+			if sk == nil {
+				gv = "the writer is no io.Seeker"
+				break
+			}
+			pos, err := sk.Seek(op.Off, op.Whence)
 			if err != nil {
 				gv = "rejected" // the position returned with an error is unspecified
 				if lenient {
@@ -390,6 +405,11 @@ func c18Exec(cs c18Case) (got, want string, moved bool) {
 			pos, err := sw.Seek(0, io.SeekCurrent)
 			got += fmt.Sprintf("cursor:%d,%s;size:%d;", pos, errClass(err), sw.Size())
 			want += fmt.Sprintf("cursor:%d,nil;size:%d;", m.cur, cs.N)
+		} else if sw == nil && sk != nil && i == len(cs.Ops)-1 {
+			// AtToWriter: the cursor, relative to off, at the end of the sequence
+			pos, err := sk.Seek(0, io.SeekCurrent)
+			got += fmt.Sprintf("cursor:%d,%s;", pos, errClass(err))
+			want += fmt.Sprintf("cursor:%d,nil;", m.cur)
 		}
 		if m.cur != before {
 			moved = true
@@ -662,6 +682,17 @@ func c18Run(c *mc.Ctx) {
 				ops = append(ops, c18Op{Op: "write", Len: l, Ans: a})
 			}
 		}
+		// "behaves as a section from off": its WriteAt and Seek faces (reached by asserting io.WriterAt /
+		// io.Seeker on the returned io.Writer) are relative to off as well
+		for _, wo := range []int64{-1, 0, 3} {
+			for _, a := range []c18Ans{{Full: true}, {K: 1, Err: true}, {K: 1, Err: false}} {
+				ops = append(ops, c18Op{Op: "writeat", Len: 2, Off: wo, Ans: a})
+			}
+		}
+		for _, sk := range [][2]int64{{0, 0}, {2, 0}, {-1, 0}, {0, 1}, {1, 1}, {-1, 1}, {-100, 1}, {0, 3}} {
+			ops = append(ops, c18Op{Op: "seek", Off: sk[0], Whence: int(sk[1]), Ans: c18Ans{Full: true}})
+		}
+		c.Set("attowriter_alphabet", len(ops))
 		var seqs, snt int64
 		run := func(h []c18Op) {
 			cs := c18Case{Kind: "attowriter", Base: off, Ops: append([]c18Op(nil), h...)}
